@@ -59,7 +59,7 @@ func sendBufSink(info *types.Info, n ast.Node) ast.Expr {
 	}
 	// the queue itself or a single-assignment alias of it (`out := ds.sendBuf`)
 	ch := ast.Unparen(s.Chan)
-	if d := pat.DefOf(info, identOf(ch)); d != nil {
+	if d := tt.DefOf(info, identOf(ch)); d != nil {
 		ch = ast.Unparen(d)
 	}
 	if !core.IsFieldNamed(info, ch, "DbSyncer", "sendBuf") {
@@ -67,7 +67,7 @@ func sendBufSink(info *types.Info, n ast.Node) ast.Expr {
 	}
 	// the value: the literal, or a local holding it (`detail := cmdDetail{...}; ch <- detail`)
 	val := ast.Unparen(s.Value)
-	if d := pat.DefOf(info, identOf(val)); d != nil {
+	if d := tt.DefOf(info, identOf(val)); d != nil {
 		val = ast.Unparen(d)
 	}
 	lit, ok := val.(*ast.CompositeLit)
@@ -78,7 +78,7 @@ func sendBufSink(info *types.Info, n ast.Node) ast.Expr {
 		if kv, ok := el.(*ast.KeyValueExpr); ok {
 			if k, ok := kv.Key.(*ast.Ident); ok && k.Name == "Cmd" {
 				if _, isConst := core.StringConst(info, kv.Value); !isConst {
-					if d := pat.DefOf(info, identOf(kv.Value)); d != nil {
+					if d := tt.DefOf(info, identOf(kv.Value)); d != nil {
 						if _, isConst := core.StringConst(info, d); isConst {
 							continue // a local holding a constant command name
 						}
@@ -290,6 +290,18 @@ func commandVar(info *types.Info, root ast.Node, e ast.Expr) bool {
 	id, ok := ast.Unparen(e).(*ast.Ident)
 	if !ok {
 		return false
+	}
+	// through plain copies (the parameter binding of an inlined helper, a renamed local)
+	for depth := 0; depth < 4; depth++ {
+		defs := tt.DefsOf(info, root, core.ObjOf(info, id))
+		if len(defs) != 1 || defs[0].Rhs == nil || defs[0].Index != -1 || defs[0].Range != nil {
+			break
+		}
+		src, isId := ast.Unparen(defs[0].Rhs).(*ast.Ident)
+		if !isId {
+			break
+		}
+		id = src
 	}
 	for _, d := range tt.DefsOf(info, root, core.ObjOf(info, id)) {
 		if call, ok := ast.Unparen(d.Rhs).(*ast.CallExpr); ok && d.Index == 0 && calleeIs(info, call, pkgRedis, "", "ParseArgs") {
@@ -521,11 +533,7 @@ func checkCell(c *core.Ctx, s site, cl cell, fn *core.Fn, b tt.Body, x *tt.X, sp
 	}
 	var uses []use
 	for _, call := range mine {
-		pt, ok := g.Find(call)
-		if !ok {
-			c.Undecidedf("R4.polarity", key, call.Pos(), "call not in the control-flow graph")
-			return
-		}
+		pt, inGraph := tt.Find(g, call) // a call inside an invoked predicate closure is not a node of this graph
 		// the answer decides a branch: directly, negated, compared with true/false, or through a
 		// boolean local assigned once (all seen through the branch facts)
 		var decide []*cfg.Block
@@ -544,8 +552,21 @@ func checkCell(c *core.Ctx, s site, cl cell, fn *core.Fn, b tt.Body, x *tt.X, sp
 			uses = append(uses, use{call, pt, nil, decide})
 			continue
 		}
+		if !inGraph {
+			c.Undecidedf("R4.polarity", key, call.Pos(), "call not in the control-flow graph")
+			return
+		}
 		as, isAs := pt.Node().(*ast.AssignStmt)
-		if !isAs || len(as.Rhs) != 1 || ast.Unparen(as.Rhs[0]) != ast.Expr(call) {
+		// `v = v || P(x)` keeps a true verdict and otherwise stores the answer: `if !v { v = P(x) }`
+		orAcc := false
+		if isAs && len(as.Rhs) == 1 && len(as.Lhs) == 1 && as.Tok == token.ASSIGN {
+			if be, ok := ast.Unparen(as.Rhs[0]).(*ast.BinaryExpr); ok && be.Op == token.LOR && ast.Unparen(be.Y) == ast.Expr(call) {
+				if lv := tt.BoolLocal(info, as.Lhs[0]); lv != nil && tt.BoolLocal(info, be.X) == lv {
+					orAcc = true
+				}
+			}
+		}
+		if !isAs || len(as.Rhs) != 1 || ast.Unparen(as.Rhs[0]) != ast.Expr(call) && !orAcc {
 			c.Undecidedf("R4.polarity", key, call.Pos(), "the answer of %s is used in an unrecognised way", cl.pred)
 			return
 		}
@@ -565,6 +586,22 @@ func checkCell(c *core.Ctx, s site, cl cell, fn *core.Fn, b tt.Body, x *tt.X, sp
 				if dc, ok := ast.Unparen(d.Rhs).(*ast.CallExpr); ok && core.Callee(info, dc) == predObj {
 					continue
 				}
+			}
+			// a verdict accumulated in one variable (`filtered := P(k); if !filtered { filtered = Q(s) }`):
+			// the other assignment is acceptable when it cannot lose or bypass this answer
+			if sharedVerdict(x, g, d, pt, as, v, func(n ast.Node) bool { return s.sink(info, n) != nil || redefines(n) }, nextItem) {
+				continue
+			}
+			// the flag is not a reliable carrier of the answer. A path on which it holds the answer
+			// 'filtered' and a sink is reached all the same is a violation in any case
+			w := x.Reach(tt.ReachQuery{From: pt, FromSucc: -1, Env: tt.Env{v: true}, Target: func(n ast.Node) bool { return s.sink(info, n) != nil },
+				Cut:      func(n ast.Node) bool { return n != ast.Node(as) && redefines(n) },
+				CutBlock: nextItem,
+				CutEdge:  func(bk *cfg.Block, si int) bool { return x.Establishes(bk, si, exempt) }})
+			if w != nil && !x.Shaky {
+				c.Check("R4.polarity", key, call.Pos(), false,
+					fmt.Sprintf("'return true means not pass': an item for which filter.%s answered true must not reach the %s sink; otherwise %s", cl.pred, s.name, cl.why), w...)
+				return
 			}
 			c.Undecidedf("R4.polarity", key, call.Pos(), "the variable holding the answer of %s is also assigned elsewhere", cl.pred)
 			return
@@ -616,6 +653,42 @@ func checkCell(c *core.Ctx, s site, cl cell, fn *core.Fn, b tt.Body, x *tt.X, sp
 			ok, w = true, nil
 		}
 	}
+	if !ok && (cl.tracked || cl.skipCmd) {
+		// the exemptions are tests of the command name: a branch on the command name in a spelling
+		// that is not recognised may be such an exemption
+		unknownCmdTest := false
+		for _, bk := range g.CFG.Blocks {
+			cond := x.Cond(bk)
+			if cond == nil || !bk.Live {
+				continue
+			}
+			mentionsCmd := false
+			ast.Inspect(cond, func(n ast.Node) bool {
+				if id, isId := n.(*ast.Ident); isId && commandVar(info, b.Outer, id) {
+					mentionsCmd = true
+				}
+				return !mentionsCmd
+			})
+			if !mentionsCmd {
+				continue
+			}
+			recognised := false
+			for si := range bk.Succs {
+				for _, f := range x.EdgeFacts(bk, si) {
+					if cmdIs(info, b.Outer, f, func(string) bool { return true }) {
+						recognised = true
+					}
+				}
+			}
+			if !recognised {
+				unknownCmdTest = true
+			}
+		}
+		if unknownCmdTest {
+			c.Undecidedf("R3.matrix", key, sink.Pos(), "a branch tests the command name in a form that is not recognised: it may exempt commands from filter.%s", cl.pred)
+			return
+		}
+	}
 	c.Check("R3.matrix", key, sink.Pos(), ok,
 		fmt.Sprintf("the %s sink must be reachable only after filter.%s answered 'pass' for the item; otherwise %s", s.name, cl.pred, cl.why), w...)
 	if cl.tracked {
@@ -660,9 +733,48 @@ func checkCell(c *core.Ctx, s site, cl cell, fn *core.Fn, b tt.Body, x *tt.X, sp
 				CutBlock: nextItem,
 				CutEdge:  func(bk *cfg.Block, si int) bool { return x.Establishes(bk, si, exempt) }})
 		}
+		if w != nil && x.Shaky {
+			c.Undecidedf("R4.polarity", key, u.call.Pos(), "whether an item for which filter.%s answered true reaches the %s sink depends on a call that receives the answer and is not evaluated", cl.pred, s.name)
+			continue
+		}
 		c.Check("R4.polarity", key, u.call.Pos(), w == nil,
 			fmt.Sprintf("'return true means not pass': an item for which filter.%s answered true must not reach the %s sink; otherwise %s", cl.pred, s.name, cl.why), w...)
 	}
+}
+
+// sharedVerdict: the flag v that holds the answer assigned at `as` (point pt) has another
+// definition d. It is harmless when (a) d runs after the answer only on paths on which the flag
+// was seen false (the answer 'pass' is all that can be overwritten), or (b) after d no sink is
+// reachable without evaluating `as` again (flag-tracking search), so that the flag's value at a
+// sink always stems from `as` or a later guarded overwrite.
+func sharedVerdict(x *tt.X, g *cfgq.Graph, d tt.Def, pt cfgq.Point, as *ast.AssignStmt, v types.Object, stop func(ast.Node) bool, nextItem func(*cfg.Block) bool) bool {
+	ds, ok := d.Stmt.(*ast.AssignStmt)
+	if !ok || d.Rhs == nil {
+		return false
+	}
+	dp, found := tt.Find(g, ds)
+	if !found || dp.Node() != ast.Node(ds) {
+		return false
+	}
+	// `v = v || X` never loses a 'filtered' verdict, and v is false afterwards only if it was before
+	if be, ok := ast.Unparen(d.Rhs).(*ast.BinaryExpr); ok && be.Op == token.LOR && tt.BoolLocal(x.Info, be.X) == v && len(ds.Lhs) == 1 {
+		return true
+	}
+	flagFalse := func(f cfgq.Fact) bool {
+		return tt.BoolLocal(x.Info, f.Expr) == v && !f.Val
+	}
+	// (b) first: after d the evaluation at `as` cannot be bypassed on the way to a sink
+	isSink := func(n ast.Node) bool { return n != ast.Node(as) && n != ast.Node(ds) && stop(n) }
+	if w := x.Reach(tt.ReachQuery{From: dp, FromSucc: -1, Env: tt.Env{}, Target: isSink, Cut: func(n ast.Node) bool { return n == ast.Node(as) }, CutBlock: nextItem}); w == nil {
+		return true
+	}
+	// (a) d is reached from the answer only under flag == false
+	if okA, _ := x.OnlyVia(pt, ds, flagFalse); okA {
+		// and d is not reachable from the entry without passing `as`
+		w := g.Path(cfgq.Query{From: g.Entry(), Target: func(n ast.Node) bool { return n == ast.Node(ds) }, Avoid: func(n ast.Node) bool { return n == ast.Node(as) }})
+		return w == nil
+	}
+	return false
 }
 
 // proxyFor decides whether a boolean helper (function, method or closure) stands for the predicate
